@@ -42,6 +42,7 @@ type C05Body struct {
 	YieldOps []string `json:"yield_ops"`
 	Seed     uint64   `json:"sched_seed"`
 	Sched    []int    `json:"sched,omitempty"`
+	PCT      int      `json:"pct"` // 0 = random walk, d>0 = priority-based strategy of depth d
 	// crash part
 	Images int        `json:"images"`
 	Only   *CrashSpec `json:"only,omitempty"`
@@ -50,6 +51,7 @@ type C05Body struct {
 func (C05) Generate(seed uint64, tier string) *core.Scenario {
 	r := core.NewRand(seed)
 	b := C05Body{Seed: r.Uint64()}
+	b.PCT = []int{0, 0, 2, 3, 4, 5}[r.Intn(6)]
 	b.Writers = r.Range(1, 3)
 	b.Conjoin = r.Chance(1, 2)
 	b.GC = r.Chance(1, 2)
@@ -150,6 +152,7 @@ func (C05) Execute(t *testing.T, sc *core.Scenario) *core.Result {
 	}
 	ch := core.NewChooser(b.Seed, b.Sched)
 	s := core.NewSched(ch)
+	s.PCTDepth = b.PCT
 	s.KeepTrace = len(b.Sched) > 0
 
 	// ---- the "at every moment" invariant --------------------------------------------------------
